@@ -40,6 +40,16 @@ CLAIMED = {
    note="Trusted: renderer, projection incl. alias ids by Rc pointer identity. Pool: 2 counters, 1 shared pair, 2-3 vector variables, 1 container, 1 capturing closure; history length 4 exhaustive, 40 by simulation, 60 random.",
    technique="TLA+ abstract store model + refinement to the abstract machine checked by TLC, replay of all histories, TLC trace validation",
    ref="DESIGN.md section 5, C03"),
+ "C09": dict(
+   text="NumbersX.tla defines the numeric tower over BigInt rationals and an exact IEEE-754 binary32 model (Binary32.tla: decode to dyadic rationals, operate exactly, round once to nearest-even with overflow, subnormals and signed zero). TLC checks the laws of this oracle on the 65-number grid of MCNumbers.tla (field identities, n = d q + r, floor/ceiling bounds, total order, contagion, decimal-literal rounding) and prints the grid, whose entries are source expressions so the implementation builds every internal representation itself. Every unary and binary arithmetic case over the grid, sampled 3-operand folds and random operand tuples are executed on the real interpreter and each recorded application is judged by NumbersX!Verdict inside TLC (NumbersTrace.tla): always exact for operands below 2^15, never a wrong exact number for any operand, exact-zero division an error, correctly rounded binary32 result when an operand is inexact.",
+   note="Trusted: value projection (Number variant and components, binary32 bit fields). Operands reach the specification as the implementation holds them. A ratio with a component above 2^24 may be converted to binary32 in one step or component-wise; sqrt/exp/log/trigonometry are not specified. The oracle itself is cross-checked against numpy.float32 in setup.",
+   technique="TLA+ specification of exact and binary32 arithmetic (BigInt), laws checked by TLC, TLC trace validation of every recorded operation",
+   ref="DESIGN.md section 5, C09"),
+ "C10": dict(
+   text="Same oracle as C09 (NumbersX.tla): = < > <= >= as conjunction of adjacent pairs under the mathematical order (exact operands by BigInt cross-multiplication, an exact operand converted to binary32 when compared with an inexact one), max/min numerically extreme and inexact iff an argument is inexact, eqv? true iff same exactness and numerically equal. TLC checks totality/antisymmetry/transitivity of the order on the grid; every predicate over all grid pairs (every internal representation against every other, including values produced by arithmetic), sampled triples and random tuples of length 2-5 are executed on the interpreter and judged by NumbersX!Verdict in TLC.",
+   note="Trusted: value projection. eqv? of +0.0 and -0.0, and comparisons involving NaN inside max/min, are not constrained.",
+   technique="TLA+ specification of the numeric order (BigInt, binary32), laws checked by TLC, TLC trace validation of every recorded comparison",
+   ref="DESIGN.md section 5, C10"),
 }
 PENDING_REASON = "no check is registered for this property yet: the specification module and binding for it are still being built (see DESIGN.md section 10); nothing is claimed"
 
